@@ -38,6 +38,7 @@ func genPing(prop string, seed uint64, tier string) Scenario {
 	c.HostLLA = true
 	c.HostGUA = r.chance(1, 2)
 	c.Concurrent = true
+	c.ReuseBuf = r.chance(1, 2)
 	c.PreemptN = r.pick(1, 1, 4, 16)
 	c.HintMax = r.pick(0, 10, 100)
 	if r.chance(1, 3) {
